@@ -16,7 +16,7 @@
 From Coq Require Import List NArith PArith Bool Arith Lia FMapPositive.
 From OxiVerif Require Import DD.Table DD.TableProofs DD.Sem DD.Build DD.BuildProofs
   DD.Apply DD.ApplyBcdd DD.ApplyBcddProofs DD.ApplyBcddEval
-  DD.Quant DD.QuantSpecProofs DD.QuantBcdd DD.QuantBcddLemmas DD.QuantBcddTop
+  DD.Quant DD.QuantSpecProofs DD.QuantBcdd DD.QuantBcddLemmas DD.SubstBcddProofs DD.QuantBcddTop
   Mgr.Oom Mgr.OomProofs.
 From OxiVerif Require Import Mgr.OomGen Mgr.OomGenProofs Mgr.OomBcdd Mgr.OomBcddProofs Mgr.OomBcddSafe
   Mgr.OomBcddQ Mgr.OomBcddQProofs Mgr.OomBcddQSafe.
@@ -210,4 +210,69 @@ Proof.
   intros C cget Sg cap s s' c' [[B Q] [X [N [G F]]]].
   destruct (intact_c_elim s s' N) as [A1 [_ [_ [_ [A5 [A6 [A7 [A8 _]]]]]]]].
   repeat (split; [assumption|]). assumption.
+Qed.
+
+(** ** The cache-less instances the correspondence run evaluates ([cq_run_nc] and
+    [cq_quant_nc] / [cq_aquant_nc] / [cq_restrict_nc] / [cq_subst_nc] of
+    Mgr/OomBcddQ.v): the hypotheses reduce to the two checkers [bcok_b] and
+    [cqcall_ok_b] *)
+
+(** the cache-less instance satisfies every cache invariant *)
+Lemma qcacheokc_enc : forall Sg s, QCacheOKC enc_get Sg s tt.
+Proof. intros Sg s. split; [apply enc_ok|]. intros code args r E. discriminate. Qed.
+
+(** the registry in which the substitution object of call [k] is registered under its id *)
+Definition cq_sg_of (k : cqcall) : N -> option (list (nat * edge)) :=
+  match k with
+  | CQSubst _ pairs id => csg_add (fun _ => None) id pairs
+  | _ => fun _ => None
+  end.
+
+Lemma nat_nodup_b_spec : forall l, nat_nodup_b l = true -> NoDup l.
+Proof.
+  induction l as [|x r IH]; intros E; [constructor|].
+  simpl in E. apply andb_true_iff in E. destruct E as [E1 E2]. constructor; [|apply IH; exact E2].
+  intros Hin. apply negb_true_iff in E1.
+  assert (Ex : existsb (Nat.eqb x) r = true) by (apply existsb_exists; exists x; split; [exact Hin | apply Nat.eqb_refl]).
+  congruence.
+Qed.
+
+Theorem cqcall_ok_b_spec : forall s k, cqcall_ok_b s k = true -> cqcall_ok (cq_sg_of k) s k.
+Proof.
+  intros s k E. destruct k as [q f vars|q op f g vars|f vars|f pairs id]; simpl in E |- *;
+    repeat (apply andb_true_iff in E; destruct E as [E ?]);
+    repeat match goal with H : ref_ok_b _ _ = true |- _ => apply ref_ok_b_spec in H end; auto.
+  split; [assumption|]. split; [apply nat_nodup_b_spec; assumption|]. split.
+  - intros v r Hin. rewrite forallb_forall in H. specialize (H (v, r) Hin). simpl in H.
+    apply andb_true_iff in H. destruct H as [Hv Hr]. apply Nat.ltb_lt in Hv. apply ref_ok_b_spec in Hr. auto.
+  - unfold csg_add. rewrite N.eqb_refl. reflexivity.
+Qed.
+
+Theorem cq_nc_inv : forall Sg s, BcOK s -> QInv unit enc_get Sg s tt.
+Proof. intros Sg s B. split; [exact B | apply qcacheokc_enc]. Qed.
+
+Theorem cq_nc_exact : forall cap p s k, BcOK s -> cqcall_ok_b s k = true ->
+  exists su ru, cqrun_u lt_none unit enc_get enc_add s tt k = Some (su, tt, ru) /\
+    BcOK su /\ cqcall_spec s k su ru /\
+    (node_count su <= Nat.max cap (node_count s) -> cq_run_nc cap p s k = GOk su tt ru) /\
+    (Nat.max cap (node_count s) < node_count su ->
+       exists s', cq_run_nc cap p s k = GOom s' tt /\ cqfailed_ok enc_get (cq_sg_of k) cap s s' tt).
+Proof.
+  intros cap p s k B Hk. apply cqcall_ok_b_spec in Hk.
+  pose proof (cq_nc_inv (cq_sg_of k) s B) as I.
+  destruct (cq_exact lt_none unit enc_get enc_add (cq_sg_of k) cap (fun _ => p) (fun _ => p) s tt k
+              enc_lossy I Hk) as [su [[] [ru [E [V [A F]]]]]].
+  destruct (cqrun_u_sound lt_none unit enc_get enc_add (cq_sg_of k) s tt k enc_lossy I Hk)
+    as [s1 [c1 [r1 [E1 [[B1 _] _]]]]].
+  rewrite E in E1. inversion E1; subst s1 c1 r1.
+  exists su, ru. split; [exact E|]. split; [exact B1|]. split; [exact V|]. split; [exact A|].
+  intros Hbig. destruct (F Hbig) as [s' [[] [Eb Fs]]]. exists s'. split; assumption.
+Qed.
+
+Theorem cq_nc_no_panic : forall cap p s k, BcOK s -> cqcall_ok_b s k = true ->
+  cq_run_nc cap p s k <> GStuck.
+Proof.
+  intros cap p s k B Hk. apply cqcall_ok_b_spec in Hk.
+  apply (cq_no_panic lt_none unit enc_get enc_add (cq_sg_of k) cap (fun _ => p) (fun _ => p) s tt k
+           enc_lossy (cq_nc_inv (cq_sg_of k) s B) Hk).
 Qed.
